@@ -1,6 +1,13 @@
 import Ypv.Lemmas.Anchors
 /-!
 # C10 — anchor conflicts in a merge follow the chosen policy and the result reloads
+
+Model: `Ypv/Model/Anchors.lean` (`resolve` = `Merger._resolve_anchor_conflicts`, with object
+identities on anchored scalars).  Policy definitions: `Ypv/Spec/Anchors.lean` (`finalL`, `finalR`,
+`hasConflict`).  `ls = scan l`, `rs = scan r` are the name → node dictionaries.
+
+Scope (as in the property): anchors on scalars.  `WF d := OneObj (occs d)` says a document is as the
+loader delivers it: all occurrences of one anchor name are one object with one value.
 -/
 namespace Ypv.C10
 open Ypv Ypv.Anchors
@@ -14,9 +21,151 @@ theorem unique_anchor_terminates_fresh (a : Str) (known : List Str) :
   | none => rw [hc] at h; cases h
   | some f => exact ⟨f, rfl, calcUnique_fresh a known f hc⟩
 
-/-- When every anchor name of a document is borne by one object, the emitter defines each
-name exactly once: the serialised document has no duplicate anchor. -/
-theorem no_duplicate_anchor_of_oneObj (d : ANode) (h : OneObj (occs d)) : (emittedDefs d).Nodup :=
-  defsFrom_nodup _ _ h
+/-- **stop refuses**: if some anchor name is defined in both documents with values that are not
+equal, `anchors=stop` ends in a merge error (never a crash, never a merged document). -/
+theorem stop_refuses (l r : ANode) (h : hasConflict (scan l) (scan r) = true) :
+    resolve .stop l r = .error .merge := by
+  unfold resolve
+  exact (resolveLoop_outcome .stop _ (scan l) (scan r) (l, r)).1 ⟨rfl, h⟩
+
+/-- **every other case is accepted**: under `left`, `right`, `rename` always, and under `stop`
+whenever no shared name differs in value — in particular *same-name anchors with equal values
+are never a conflict*. -/
+theorem accepted_unless_stop_conflict (mode : Mode) (l r : ANode)
+    (h : ¬ (mode = .stop ∧ hasConflict (scan l) (scan r) = true)) :
+    ∃ p, resolve mode l r = .ok p := by
+  unfold resolve
+  exact (resolveLoop_outcome mode _ (scan l) (scan r) (l, r)).2 h
+
+/-- **the policies, occurrence by occurrence**: whenever resolution succeeds, the right document is
+the image of `r` under `finalR` and the left document the image of `l` under `finalL`
+(see `Spec/Anchors.lean`: `left` replaces conflicting right-hand nodes by the left-hand node,
+`right` replaces conflicting left-hand nodes by the right-hand node, `rename` gives every occurrence
+of a conflicting right-hand name the same fresh name and changes nothing else, equal values make the
+left-hand occurrences share the right-hand object; every other occurrence, and all structure that is
+not an anchored scalar, is unchanged).  A scalar-root left document is left as it is. -/
+theorem resolve_is_policy (mode : Mode) (l r : ANode) (p : ANode × ANode)
+    (h : resolve mode l r = .ok p) :
+    p.1 = (if isContainer l then mapTags (finalL mode (scan l) (scan r)) l else l) ∧
+    p.2 = mapTags (finalR mode (knownOf (scan l) (scan r)) (scan l) (scan r)) r := by
+  have := resolve_closed mode l r p h
+  rw [this]; exact ⟨rfl, rfl⟩
+
+theorem no_conflict_of_not_hasConflict {ls rs : Dict} (h : hasConflict ls rs = false) :
+    ∀ n la ra, ls.lookup n = some la → rs.lookup n = some ra → pyEq la.2 ra.2 = true := by
+  intro n la ra h1 h2
+  unfold hasConflict at h
+  have := (List.any_eq_false.1 h) (n, ra) (mem_of_lookup h2)
+  simp only [h1] at this
+  simpa using this
+
+/-- **one object per anchor name after resolution**: for loaded documents (`WF`), after a successful
+resolution any two anchored scalars anywhere in the two documents that bear the same name are the
+same object with the same value — for `left`, `right`, equal values, and for `rename` provided
+distinct conflicting names received distinct fresh names (`FreshInj`; the fresh names themselves are
+proved not to collide with any existing name).
+`resolved_oneObj_partial`: the general proof of `FreshInj` for `_calc_unique_anchor` is missing. -/
+theorem resolved_oneObj_partial (mode : Mode) (l r : ANode) (p : ANode × ANode)
+    (hl : OneObj (occs l)) (hr : OneObj (occs r)) (hc : isContainer l = true)
+    (hinj : mode = .rename → FreshInj (knownOf (scan l) (scan r)))
+    (h : resolve mode l r = .ok p) :
+    OneObj (occs p.1 ++ occs p.2) := by
+  obtain ⟨h1, h2⟩ := resolve_is_policy mode l r p h
+  rw [h1, h2, hc]
+  simp only [if_true, occs_mapTags]
+  apply resolved_oneObj mode l r hl hr _ hinj
+  intro hm
+  apply no_conflict_of_not_hasConflict
+  cases hcf : hasConflict (scan l) (scan r) with
+  | false => rfl
+  | true =>
+    subst hm
+    rw [stop_refuses l r hcf] at h
+    cases h
+
+/-- **the result serialises without a duplicate anchor**: any document assembled from nodes of the
+two resolved documents (which is what the merge does with anchored scalars) makes the emitter define
+each anchor name exactly once. -/
+theorem merged_no_duplicate_anchor (l' r' d : ANode) (h : OneObj (occs l' ++ occs r'))
+    (hsub : ∀ x ∈ occs d, x ∈ occs l' ++ occs r') : (emittedDefs d).Nodup := by
+  apply defsFrom_nodup
+  intro a ha b hb hab
+  exact h a (hsub a ha) b (hsub b hb) hab
+
+/-- **left reads left / right reads right**: after a successful resolution of loaded documents
+under `left` (resp. `right`), every anchored scalar, in either document, whose name is defined in
+both documents with different values is the left-hand (resp. right-hand) node. -/
+theorem left_reads_left (l r : ANode) (p : ANode × ANode) (hl : OneObj (occs l)) (hr : OneObj (occs r))
+    (hc : isContainer l = true) (h : resolve .left l r = .ok p)
+    (n : Str) (la ra : Anchored) (h1 : (scan l).lookup n = some la) (h2 : (scan r).lookup n = some ra)
+    (hne : pyEq la.2 ra.2 = false) :
+    ∀ x ∈ occs p.1 ++ occs p.2, x.1.name = n → x = la := by
+  obtain ⟨e1, e2⟩ := resolve_is_policy .left l r p h
+  rw [e1, e2, hc]
+  simp only [if_true, occs_mapTags]
+  intro x hx hn
+  have hlan : la.1.name = n := (scan_ok l).1 _ (mem_of_lookup h1)
+  rcases List.mem_append.1 hx with hx | hx
+  · obtain ⟨a, ha, rfl⟩ := List.mem_map.1 hx
+    rw [finalL_name _ _ _ (scan_ok r).1] at hn
+    have : a = la := hl a ha la (scan_lookup_mem h1).1 (by rw [hn, hlan])
+    subst this
+    unfold finalL
+    rw [hn, h1, h2]; simp [hne]
+  · obtain ⟨b, hb, rfl⟩ := List.mem_map.1 hx
+    rw [finalR_name_left _ _ _ (scan_ok l).1] at hn
+    unfold finalR
+    rw [hn, h1, h2]; simp [hne]
+
+theorem right_reads_right (l r : ANode) (p : ANode × ANode) (hl : OneObj (occs l)) (hr : OneObj (occs r))
+    (hc : isContainer l = true) (h : resolve .right l r = .ok p)
+    (n : Str) (la ra : Anchored) (h1 : (scan l).lookup n = some la) (h2 : (scan r).lookup n = some ra)
+    (hne : pyEq la.2 ra.2 = false) :
+    ∀ x ∈ occs p.1 ++ occs p.2, x.1.name = n → x = ra := by
+  obtain ⟨e1, e2⟩ := resolve_is_policy .right l r p h
+  rw [e1, e2, hc]
+  simp only [if_true, occs_mapTags]
+  intro x hx hn
+  have hran : ra.1.name = n := (scan_ok r).1 _ (mem_of_lookup h2)
+  rcases List.mem_append.1 hx with hx | hx
+  · obtain ⟨a, ha, rfl⟩ := List.mem_map.1 hx
+    rw [finalL_name _ _ _ (scan_ok r).1] at hn
+    unfold finalL
+    rw [hn, h1, h2]; simp [hne]
+  · obtain ⟨b, hb, rfl⟩ := List.mem_map.1 hx
+    have hn' : b.1.name = n := by
+      rcases finalR_name_cases .right _ (scan l) (scan r) b (scan_ok l).1 with h' | ⟨hm, _, _⟩
+      · rw [← h']; exact hn
+      · cases hm
+    have : b = ra := hr b hb ra (scan_lookup_mem h2).1 (by rw [hn', hran])
+    subst this
+    unfold finalR
+    rw [hn', h1, h2]; simp [hne]
+
+/-- **rename is consistent**: under `rename`, every occurrence of a conflicting right-hand name
+ends up with one and the same new name, which no node of either document bore before, keeping its
+object and value; left-hand occurrences of that name keep reading the left value. -/
+theorem rename_consistent (l r : ANode) (p : ANode × ANode) (hr : OneObj (occs r))
+    (h : resolve .rename l r = .ok p)
+    (n : Str) (la ra : Anchored) (h1 : (scan l).lookup n = some la) (h2 : (scan r).lookup n = some ra)
+    (hne : pyEq la.2 ra.2 = false) :
+    ∃ f, f ∉ knownOf (scan l) (scan r) ∧
+      ∀ b ∈ occs r, b.1.name = n →
+        finalR .rename (knownOf (scan l) (scan r)) (scan l) (scan r) b = ({ b.1 with name := f }, b.2) := by
+  obtain ⟨f, hf, hfresh⟩ := unique_anchor_terminates_fresh n (knownOf (scan l) (scan r))
+  refine ⟨f, hfresh, ?_⟩
+  intro b hb hn
+  unfold finalR
+  rw [hn, h1, h2]
+  simp [hne, hf]
+
+/-- Non-vacuity: a concrete conflicting pair; `stop` refuses, `rename` renames to `x_1`. -/
+def exL : ANode := .map [(.str ['a'], .scalar (some ⟨['x'], 1⟩) (.int 1)), (.str ['b'], .scalar (some ⟨['x'], 1⟩) (.int 1))]
+def exR : ANode := .map [(.str ['d'], .scalar (some ⟨['x'], 2⟩) (.int 2))]
+example : hasConflict (scan exL) (scan exR) = true := by decide +kernel
+example : OneObj (occs exL) := by
+  intro a ha b hb _
+  simp [exL, occs, occs.occsEntries] at ha hb
+  rcases ha with rfl | rfl <;> rcases hb with rfl | rfl <;> rfl
 
 end Ypv.C10
